@@ -218,7 +218,7 @@ func genC04mcts(c *Ctx) {
 			}
 		}
 		policy := []string{"-", "uniform", "place_win"}[c.R.Intn(3)]
-		limit := 100 + c.R.Intn(50)
+		limit := 150 + c.R.Intn(100)
 		out := c.Emit("mcts " + policy + " " + strconv.Itoa(b2i(corners)) + " " + strconv.Itoa(limit) + " " + strconv.Itoa(1+c.R.Intn(1000000)) + " " + encPos(p))
 		c.Count("mcts." + policy + ".corners" + strconv.Itoa(b2i(corners)) + "." + strings.SplitN(out, ":", 2)[0])
 		if p.MoveNumber() < 2 {
